@@ -4,6 +4,8 @@ import (
 	"fmt"
 	"strings"
 
+	"go.mongodb.org/mongo-driver/bson/primitive"
+
 	"github.com/256dpi/lungo/mongokit"
 )
 
@@ -47,6 +49,12 @@ var Oplog = Handle{Local, "oplog"}
 // Catalog is the top level object per database that contains all data.
 type Catalog struct {
 	Namespaces map[Handle]*mongokit.Collection
+
+	// The id timestamp of the newest event that has been removed from the
+	// oplog by retention (zero if none). Event ids are strictly increasing, so
+	// a reader that has seen everything up to some id has lost events exactly
+	// if this timestamp is greater.
+	Trimmed primitive.Timestamp
 }
 
 // NewCatalog creates and returns a new catalog.
@@ -63,6 +71,7 @@ func (d *Catalog) Clone() *Catalog {
 	// create clone
 	clone := &Catalog{
 		Namespaces: make(map[Handle]*mongokit.Collection, len(d.Namespaces)),
+		Trimmed:    d.Trimmed,
 	}
 
 	// copy namespaces
